@@ -381,6 +381,9 @@ func (b *Billet) GetFromStore(h util.Uint256) (Node, error) {
 	if r.Err != nil {
 		return nil, r.Err
 	}
+	if typ := n.Node.Type(); typ == HashT || typ == EmptyT {
+		return nil, fmt.Errorf("invalid stored MPT node type: %x", typ)
+	}
 
 	if b.mode.RC() {
 		data = data[:len(data)-5]
